@@ -23,7 +23,7 @@ What makes a good change:
 - It needs something SPECIFIC to manifest: an unusual input, a particular multi-step sequence of operations, a particular interleaving or fault at a particular point - so that the existing test-suite does not notice.
 - It changes only files under paramiko/ (the library), not tests. Keep it small (a few lines).
 - The three changes must be genuinely different from each other: different functions and different mechanisms, not variations of one edit. Prefer places a reviewer would not look first.
-- With the change applied, the whole existing suite must still pass:  cd {wt} && /venv/bin/python -m pytest -q -p no:cacheprovider --timeout=900 -x   (about 90 seconds, 534 passed / 26 skipped expected).
+{style}- With the change applied, the whole existing suite must still pass:  cd {wt} && /venv/bin/python -m pytest -q -p no:cacheprovider --timeout=900 -x   (about 90 seconds, 534 passed / 26 skipped expected).
 
 For each change k in {k0},{k1},{k2} write into {out}/k/ :
 - patch.diff  : output of `git -C {wt} diff` for that change alone (relative to the unchanged HEAD; must apply with `git apply` to a clean checkout).
@@ -36,6 +36,13 @@ Note: the current tree may already deviate from the property in places; your dem
 
 When done, reply with a short list: for each k, one line saying what was changed and whether all three confirmations (demo passes unchanged, demo fails changed, suite passes changed) succeeded.
 '''
+
+
+STYLE = ""
+if os.environ.get("SEED_STYLE") == "periphery":
+    STYLE = ("- This time prefer changes that are NOT in the most obvious function for this property: helper functions it relies on, "
+             "callers that establish its preconditions, constants or tables it consumes, error / timeout / teardown paths, "
+             "or the interaction between two functions. At most one of the three may be in the property's central function.\n")
 
 
 def main():
@@ -58,7 +65,7 @@ def main():
         os.makedirs(out, exist_ok=True)
         anchors = "; ".join("%s (%s)" % (m["name"], m["where"]) for m in p["anchors"]["mechanism"])
         txt = T.format(pid=pid, title=p["title"], statement=p["statement"], quant=p["quantifier"]["text"], anchors=anchors,
-                       wt=wt, out=out, k0=k0, k1=k0 + 1, k2=k0 + 2)
+                       wt=wt, out=out, k0=k0, k1=k0 + 1, k2=k0 + 2, style=STYLE)
         open(os.path.join(rd, "prompts", pid + ".txt"), "w").write(txt)
         print(pid, wt)
 
